@@ -83,11 +83,14 @@ def execute(p, ch):
             stdout = V.aio_text(sink, loop, ctl)
             handlers.append(ConnectionHandler(router, stdin, stdout))
         msgs = [numbered(i, p.get("big", 0) if i == p.get("big_at", 0) else 0) for i in range(p["burst"])]
+        if p.get("blobs"):
+            # several BLOB updates (of different properties / devices) in one burst
+            msgs = [numbered(i, 40 + i) for i in range(p["burst"])]
         if p.get("repeat"):
             # the same content sent again with something else in between (On, Off, On): equal messages are still
             # separate messages
             msgs = [numbered(i % 2) for i in range(p["burst"])]
-        if p.get("big") and tr in ("tcp-server", "mixed", "tty"):
+        if (p.get("big") or p.get("blobs")) and tr in ("tcp-server", "mixed", "tty"):
             import indi.message as M
 
             for h in handlers:  # these connections want BLOBs too
@@ -248,6 +251,8 @@ def configs(tier):
             out.append(dict(transport=tr, nconn=1, burst=3, toggles=2, victim=None, repeat=True))
             out.append(dict(transport=tr, nconn=1, burst=4, toggles=1, victim=None, repeat=True))
         out.append(dict(transport="tty", nconn=1, burst=3, toggles=0, victim=None, W=2, repeat=True))
+        out.append(dict(transport="tty", nconn=1, burst=3, toggles=0, victim=None, W=2, blobs=True))
+        out.append(dict(transport="tcp-server", nconn=2, burst=3, toggles=2, victim=None, blobs=True))
         for victim in (0, 1, 2):
             for batch in (1, 64, 2500):
                 out.append(dict(transport="tcp-server", nconn=3, burst=2500, toggles=0, victim=victim, backlog=True, batch=batch))
@@ -263,6 +268,9 @@ def configs(tier):
             for burst in (3, 4, 5):
                 out.append(dict(transport=tr, nconn=1, burst=burst, toggles=3, victim=None, repeat=True))
         out.append(dict(transport="tty", nconn=1, burst=4, toggles=0, victim=None, W=3, repeat=True))
+        out.append(dict(transport="tty", nconn=1, burst=4, toggles=0, victim=None, W=3, blobs=True))
+        out.append(dict(transport="mixed", nconn=1, burst=3, toggles=1, victim=None, W=2, blobs=True))
+        out.append(dict(transport="tcp-server", nconn=2, burst=4, toggles=2, victim=None, blobs=True))
         for victim in (0, 1, 2):
             for batch in (1, 7, 64, 1000, 9000):
                 out.append(dict(transport="tcp-server", nconn=3, burst=9000, toggles=0, victim=victim, backlog=True, batch=batch))
